@@ -71,7 +71,18 @@ package graph
 // relation restricted to the wildcard of the user's type, with the request's consistency; invalid tuples are filtered
 // by the model in use and conditions by the request context; allowed=true only if that filtered sequence yields a tuple
 //@ func (*LocalChecker).checkPublicAssignable$1(ctx) (res, err)
-//@   property C01 C10
+//@   property C01 C10 C20
+//@   option monitor_props release=C20
+//@   ensures @iteratorReleased opened ==> released
+//@   monitor release
+//@     ghost cur iface = nil
+//@     ghost opened = false
+//@     ghost released = false
+//@     after call storage.RelationshipTupleReader.ReadUsersetTuples returning it, e : opened = e == nil ; cur = it ; released = false
+//@     after call storage.NewTupleKeyIteratorFromTupleIterator args x returning r : cur = (x == cur ? r : cur)
+//@     after call storage.NewFilteredTupleKeyIterator args x, f returning r : cur = (x == cur ? r : cur)
+//@     after call storage.NewConditionsFilteredTupleKeyIterator args x, f returning r : cur = (x == cur ? r : cur)
+//@     after call defer:storage.Iterator.Stop | defer:storage.TupleKeyIterator.Stop | defer:storage.TupleIterator.Stop args recv : released = released || recv == cur
 //@   option nosafety
 //@   option defer_neutral
 //@   ensures @onlyIfYielded res != nil && res.Allowed ==> err == nil && nexted && nextErr == nil
@@ -146,3 +157,48 @@ package graph
 //@   monitor cycles
 //@     ghost cyc = false
 //@     after call (*graph.ResolveCheckResponse).GetResolutionMetadata returning m : cyc = cyc || m.CycleDetected
+
+// ------------------------------------------------------------------ C20: iterators opened by the default engine are released
+// (C20, release kernel: the iterator opened here is released on every path — its outermost adapter is stopped by a
+// registered defer; the adapters' Stop reaches the wrapped iterator, see pkg/storage)
+//@ func (*LocalChecker).checkDirectUsersetTuples$1(ctx) (res, err)
+//@   property C20
+//@   option nosafety
+//@   loop 0 invariant opened ==> released
+//@   ensures @iteratorReleased opened ==> released
+//@   monitor release
+//@     ghost cur iface = nil
+//@     ghost opened = false
+//@     ghost released = false
+//@     after call checkutil.IteratorReadUsersetTuples returning it, e : opened = e == nil ; cur = it ; released = false
+//@     after call storage.NewTupleKeyIteratorFromTupleIterator args x returning r : cur = (x == cur ? r : cur)
+//@     after call storage.NewFilteredTupleKeyIterator args x, f returning r : cur = (x == cur ? r : cur)
+//@     after call storage.NewConditionsFilteredTupleKeyIterator args x, f returning r : cur = (x == cur ? r : cur)
+//@     after call defer:storage.Iterator.Stop | defer:storage.TupleKeyIterator.Stop | defer:storage.TupleIterator.Stop args recv : released = released || recv == cur
+
+//@ func (*LocalChecker).checkTTU$1(ctx) (res, err)
+//@   property C20
+//@   option nosafety
+//@   ensures @iteratorReleased opened ==> released
+//@   monitor release
+//@     ghost cur iface = nil
+//@     ghost opened = false
+//@     ghost released = false
+//@     after call checkutil.IteratorReadStartingFromUser | storage.RelationshipTupleReader.Read | storage.RelationshipTupleReader.ReadStartingWithUser returning it, e : opened = e == nil ; cur = it ; released = false
+//@     after call storage.NewTupleKeyIteratorFromTupleIterator args x returning r : cur = (x == cur ? r : cur)
+//@     after call storage.NewFilteredTupleKeyIterator args x, f returning r : cur = (x == cur ? r : cur)
+//@     after call storage.NewConditionsFilteredTupleKeyIterator args x, f returning r : cur = (x == cur ? r : cur)
+//@     after call defer:storage.Iterator.Stop | defer:storage.TupleKeyIterator.Stop | defer:storage.TupleIterator.Stop args recv : released = released || recv == cur
+
+// ------------------------------------------------------------------ C19: no-panic sweep (thin, safety-only contracts)
+// every index and slice expression of these functions is in range for ALL inputs, with no precondition (generated by
+// bin/sweepgen, kept because every obligation discharges; callees without contract are treated as arbitrary)
+//@ func NewCachedCheckResolver(a0) (r0, r1)
+//@   property C19
+//@   option nosafety
+//@   option safety slice,index
+
+//@ func fastPathDifference(a0, a1, a2)
+//@   property C19
+//@   option nosafety
+//@   option safety slice,index
